@@ -1,6 +1,7 @@
 package cluster
 
 import (
+	"bytes"
 	"fmt"
 	"io"
 	"os"
@@ -48,6 +49,10 @@ func (c *ClusterNode) syncUserCollections() error {
 						Bucket:    USERCOLSBUCKETKEY,
 					}
 				}
+				// The value is only valid during this read transaction but it is
+				// sent after it, while the clean up of another destination may
+				// already be writing to the database.
+				v = bytes.Clone(v)
 				postage[destination].KeyValues[string(k)] = v
 			}
 			return nil
